@@ -217,6 +217,60 @@ pub fn run(a: &Args) {
         std::mem::forget(mem);
     }
 
+    // (1d) the same under a flood: feeder threads send events as fast as they can, before and after
+    // the drop, and stop only when a send tells them the reloader is gone.  The reloader looks at its
+    // cache messages first on every turn, so it learns about the drop whatever the event backlog:
+    // soon after the drop every feeder has been told and no reloader thread is left burning CPU.
+    {
+        use std::sync::atomic::{AtomicBool, AtomicUsize, Ordering};
+        use std::sync::Arc;
+        let before = reloader_tasks().len();
+        let mem = Mem::new(true);
+        mem.write("a", "x", b"1");
+        let cache = AssetCache::with_source(mem.clone());
+        cache.load::<TInt>("a").unwrap();
+        let told = Arc::new(AtomicUsize::new(0));
+        let stop = Arc::new(AtomicBool::new(false));
+        let feeders: Vec<_> = (0..3)
+            .map(|_| {
+                let mem = mem.clone();
+                let told = told.clone();
+                let stop = stop.clone();
+                std::thread::spawn(move || {
+                    while !stop.load(Ordering::Relaxed) {
+                        let batch = vec![
+                            OwnedDirEntry::File("a".into(), "x".into()),
+                            OwnedDirEntry::File("zz".into(), "x".into()),
+                        ];
+                        if !mem.send(batch) {
+                            told.fetch_add(1, Ordering::SeqCst);
+                            return;
+                        }
+                    }
+                })
+            })
+            .collect();
+        std::thread::sleep(Duration::from_millis(100));
+        drop(cache);
+        let t0 = Instant::now();
+        while told.load(Ordering::SeqCst) < 3 && t0.elapsed() < Duration::from_millis(2500) {
+            std::thread::sleep(Duration::from_millis(10));
+        }
+        let told_n = told.load(Ordering::SeqCst);
+        let waited = t0.elapsed().as_millis();
+        let (n, ticks, states) = sample(200);
+        stop.store(true, Ordering::Relaxed);
+        for f in feeders {
+            let _ = f.join();
+        }
+        evals += 1;
+        samples.push(format!("{{\"kind\": \"cache dropped under an event flood (3 feeders)\", \"feeders_told\": {told_n}, \"after_ms\": {waited}, \"reloader_tasks_left\": {}, \"max_ticks_in_window\": {ticks}}}", n.saturating_sub(before)));
+        if told_n < 3 || (n > before && ticks > 1) {
+            violations.push(("reloader-alive-after-drop".into(), format!("cache dropped while 3 threads flood its event channel: {told_n} of 3 senders were told within {waited} ms, {} reloader task(s) left using {ticks} ticks in 200 ms (states {states})", n.saturating_sub(before))));
+        }
+        std::mem::forget(mem);
+    }
+
     // (1c) FileSystem caches: after the drop the notify watcher goes away too (it lets go when a
     // send fails), also when files keep changing under the root
     {
